@@ -156,6 +156,17 @@ def impl(case):
         except Exception as e:
             sc.append({"i": i, "err": C.exc_enum(e)})
     res["scalar"] = sc
+    # the public entry point: invert() hands the solver's options on (this WCS has no analytic inverse)
+    try:
+        with contextlib.redirect_stdout(io.StringIO()):
+            w.invert(world[:, 0], world[:, 1], tolerance=m["tolerance"], maxiter=m["maxiter"], adaptive=m["adaptive"],
+                     detect_divergence=m["detect_divergence"], quiet=False, with_bounding_box=False)
+        res["invert_raised"] = False
+    except gw.NoConvergence as e:
+        res["invert_raised"] = True
+        res["invert_listed"] = sorted(int(v) for v in (list(e.divergent) if e.divergent is not None else []) + (list(e.slow_conv) if e.slow_conv is not None else []))
+    except Exception as e:
+        res["invert_err"] = C.exc_enum(e)
     res["sol_nan"] = [bool(not np.all(np.isfinite(s))) for s in sol]
     res["world_nan"] = [bool(not np.all(np.isfinite(x))) for x in world]
     if "pre" in _SNAP:
@@ -219,6 +230,11 @@ def oracle(case, res):
             elif i not in listed:
                 out.append(("uncovered", "NoConvergence raised but row %d (residual %s px, tolerance %g) is in neither divergent %s nor slow_conv %s" %
                             (i, r, tol, res.get("divergent"), res.get("slow_conv"))))
+    if "invert_err" in res:
+        out.append(("invert_entry", "invert(..., quiet=False) raised %s" % res["invert_err"]))
+    elif "invert_raised" in res and res["invert_raised"] != res["raised"]:
+        out.append(("invert_entry", "numerical_inverse(quiet=False) %s NoConvergence but invert(..., quiet=False) with the same options %s" %
+                    ("raises" if res["raised"] else "does not raise", "raises" if res["invert_raised"] else "does not")))
     for sc in res.get("scalar", []):
         if "err" in sc:
             out.append(("scalar", "scalar call for row %d raised %s" % (sc["i"], sc["err"])))
